@@ -634,9 +634,10 @@ class PKey:
         decryptor = Cipher(
             cipher(key), mode(salt), backend=default_backend()
         ).decryptor()
-        decrypted_data = decryptor.update(data) + decryptor.finalize()
         unpadder = padding.PKCS7(cipher.block_size).unpadder()
         try:
+            # finalize() refuses data that is not a multiple of the block size
+            decrypted_data = decryptor.update(data) + decryptor.finalize()
             return unpadder.update(decrypted_data) + unpadder.finalize()
         except ValueError:
             raise SSHException("Bad password or corrupt private key file")
